@@ -19,22 +19,6 @@ func init() { register("C06", false, checkC06) }
 
 var gjDepth = map[string]int{"Point": 1, "MultiPoint": 2, "LineString": 2, "MultiLineString": 3, "Polygon": 3, "MultiPolygon": 4}
 
-func sliceDepthOfFloat(t types.Type) int {
-	d := 0
-	for {
-		s, ok := t.Underlying().(*types.Slice)
-		if !ok {
-			break
-		}
-		d++
-		t = s.Elem()
-	}
-	if !isFloat64(t) {
-		return -1
-	}
-	return d
-}
-
 func checkC06(c *Ctx) {
 	c.Rule("C06.R1", "model evaluation on small geometries of the six types (empty members in later positions): ToGeoJSON: each geometry type T yields Type = T's RFC 7946 name and Coordinates of static type []float64 nested exactly as T requires (Point 1, MultiPoint/LineString 2, Polygon/MultiLineString 3, MultiPolygon 4); the decoder's case for name S decodes exactly that nesting and returns the geom type named S; the JSON members are \"type\" and \"coordinates\"")
 	c.Rule("C06.R2", "FromGeoJSON on malformed documents (positions of 0, 1 or 3 numbers, wrong nesting depth, non-numbers, empty arrays, unknown type names, nil): an error, never a panic and never a geometry")
@@ -55,350 +39,6 @@ func checkC06(c *Ctx) {
 	c.Floor("C06.R1", 13)
 	c.Floor("C06.R2", 1)
 	c.Floor("C06.R4", 3)
-}
-
-func c06encoder(c *Ctx, info *types.Info) {
-	f := c.P.Func("encoding/geojson", "ToGeoJSON")
-	fd := c.P.Decl(f)
-	if fd == nil {
-		c.Unk("C06.R1", "encoding/geojson.ToGeoJSON", token.NoPos, "API anchor does not resolve")
-		return
-	}
-	param := paramVars(info, fd.Type)[0]
-	var sw *ast.TypeSwitchStmt
-	for _, st := range fd.Body.List {
-		if s, ok := st.(*ast.TypeSwitchStmt); ok {
-			sw = s
-		}
-	}
-	if sw == nil {
-		c.Unk("C06.R1", "encoding/geojson.ToGeoJSON", fd.Pos(), "type switch not found")
-		return
-	}
-	op, cls := typeSwitch(info, sw)
-	if op == nil || objOf(info, op) != param {
-		c.Unk("C06.R1", "encoding/geojson.ToGeoJSON", fd.Pos(), "type switch is not on the geometry")
-		return
-	}
-	seen := map[string]bool{}
-	for _, cl := range cls {
-		if cl.Default {
-			continue
-		}
-		for _, t := range cl.Types {
-			if t == nil {
-				continue
-			}
-			tn := geomTypeName(t)
-			cons := "encoding/geojson.ToGeoJSON#case(" + tn + ")"
-			want, ok := gjDepth[tn]
-			if !ok {
-				c.Bad("C06.R1", cons, cl.Clause.Pos(), "%s is encoded but has no RFC 7946 geometry type in this encoder's table", tn)
-				continue
-			}
-			seen[tn] = true
-			// the Geometry literal returned
-			var lit *ast.CompositeLit
-			ast.Inspect(&ast.BlockStmt{List: cl.Clause.Body}, func(n ast.Node) bool {
-				if cl2, ok := n.(*ast.CompositeLit); ok && isNamed(info.TypeOf(cl2), modPath+"/encoding/geojson", "Geometry") {
-					lit = cl2
-				}
-				return true
-			})
-			if lit == nil {
-				c.Unk("C06.R1", cons, cl.Clause.Pos(), "no Geometry literal in this case")
-				continue
-			}
-			var typeS string
-			var coord ast.Expr
-			for i, el := range lit.Elts {
-				if kv, ok := el.(*ast.KeyValueExpr); ok {
-					switch src(kv.Key) {
-					case "Type":
-						typeS, _ = constString(info, kv.Value)
-					case "Coordinates":
-						coord = kv.Value
-					}
-				} else if i == 0 {
-					typeS, _ = constString(info, el)
-				} else if i == 1 {
-					coord = el
-				}
-			}
-			d := -1
-			if coord != nil {
-				d = sliceDepthOfFloat(info.TypeOf(coord))
-			}
-			switch {
-			case typeS != tn:
-				c.Bad("C06.R1", cons, lit.Pos(), "geom.%s is written with \"type\": %q, RFC 7946 name is %q", tn, typeS, tn)
-			case d != want:
-				c.Bad("C06.R1", cons, lit.Pos(), "coordinates of a %s have array nesting depth %d, RFC 7946 requires %d", tn, d, want)
-			default:
-				c.OK("C06.R1", cons, lit.Pos(), "type %q, coordinates nested %d deep", typeS, d)
-			}
-		}
-	}
-	for tn := range gjDepth {
-		if !seen[tn] {
-			c.Bad("C06.R1", "encoding/geojson.ToGeoJSON#case("+tn+")", sw.Pos(), "geom.%s is not encoded", tn)
-		}
-	}
-}
-
-func c06decoder(c *Ctx, info *types.Info) {
-	// the function with a switch on g.Type reached from FromGeoJSON
-	from := c.P.Func("encoding/geojson", "FromGeoJSON")
-	if c.P.Decl(from) == nil {
-		c.Unk("C06.R1", "encoding/geojson.FromGeoJSON", token.NoPos, "API anchor does not resolve")
-		return
-	}
-	var fd *ast.FuncDecl
-	var sw *ast.SwitchStmt
-	for _, fn := range append([]*types.Func{from}, calleesOf(c, info, from)...) {
-		d := c.P.Decl(fn)
-		if d == nil {
-			continue
-		}
-		ast.Inspect(d.Body, func(n ast.Node) bool {
-			if s, ok := n.(*ast.SwitchStmt); ok && s.Tag != nil && sw == nil {
-				if sel, ok := unparen(s.Tag).(*ast.SelectorExpr); ok && sel.Sel.Name == "Type" {
-					sw, fd = s, d
-				}
-			}
-			return true
-		})
-	}
-	if sw == nil {
-		c.Unk("C06.R1", "encoding/geojson#decoder-switch", token.NoPos, "switch on the geometry's type name not found")
-		return
-	}
-	seen := map[string]bool{}
-	for _, cl := range sw.Body.List {
-		cc := cl.(*ast.CaseClause)
-		for _, e := range cc.List {
-			name, ok := constString(info, e)
-			if !ok {
-				continue
-			}
-			cons := "encoding/geojson#decode(" + name + ")"
-			want, known := gjDepth[name]
-			if !known {
-				c.Bad("C06.R1", cons, cc.Pos(), "type name %q is decoded but is not one of the six supported RFC 7946 names", name)
-				continue
-			}
-			seen[name] = true
-			// first call taking g.Coordinates
-			depth := -1
-			ast.Inspect(&ast.BlockStmt{List: cc.Body}, func(n ast.Node) bool {
-				call, ok := n.(*ast.CallExpr)
-				if !ok || len(call.Args) != 1 || depth != -1 {
-					return true
-				}
-				if sel, ok := unparen(call.Args[0]).(*ast.SelectorExpr); ok && sel.Sel.Name == "Coordinates" {
-					depth = sliceDepthOfFloat(info.TypeOf(call))
-				}
-				return true
-			})
-			// returned types
-			rets := map[string]bool{}
-			ast.Inspect(&ast.BlockStmt{List: cc.Body}, func(n ast.Node) bool {
-				if r, ok := n.(*ast.ReturnStmt); ok && len(r.Results) == 1 {
-					rets[geomTypeName(info.TypeOf(r.Results[0]))] = true
-				}
-				return true
-			})
-			var got []string
-			for k := range rets {
-				got = append(got, k)
-			}
-			switch {
-			case depth != want:
-				c.Bad("C06.R1", cons, cc.Pos(), "coordinates of a %q are decoded with array nesting depth %d, RFC 7946 requires %d", name, depth, want)
-			case len(got) != 1 || got[0] != name:
-				c.Bad("C06.R1", cons, cc.Pos(), "a %q object is decoded into %v, want geom.%s", name, got, name)
-			default:
-				c.OK("C06.R1", cons, cc.Pos(), "nesting %d → geom.%s", depth, name)
-			}
-		}
-	}
-	for tn := range gjDepth {
-		if !seen[tn] {
-			c.Bad("C06.R1", "encoding/geojson#decode("+tn+")", sw.Pos(), "type name %q is not decoded", tn)
-		}
-	}
-	// R2 decoder side: Point{c[0], c[1]} under len == 2; ring element .X = e[0], .Y = e[1] under len(e)==2
-	c06decodeXY(c, info, fd)
-}
-
-func calleesOf(c *Ctx, info *types.Info, f *types.Func) []*types.Func {
-	var out []*types.Func
-	seen := map[*types.Func]bool{f: true}
-	var visit func(g *types.Func, d int)
-	visit = func(g *types.Func, d int) {
-		fd := c.P.Decl(g)
-		if fd == nil || d > 4 {
-			return
-		}
-		ast.Inspect(fd.Body, func(n ast.Node) bool {
-			if call, ok := n.(*ast.CallExpr); ok {
-				if h := callee(info, call); h != nil && c.P.Decl(h) != nil && !seen[h] {
-					seen[h] = true
-					out = append(out, h)
-					visit(h, d+1)
-				}
-			}
-			return true
-		})
-	}
-	visit(f, 0)
-	return out
-}
-
-// guardLen2: is node n inside a branch where len(x)==2 holds for the slice x?
-func guardLen2(info *types.Info, root ast.Node, n ast.Node, x ast.Expr) bool {
-	path := enclosing(root, n)
-	for i := len(path) - 1; i >= 0; i-- {
-		switch s := path[i].(type) {
-		case *ast.IfStmt:
-			inBody := i+1 < len(path) && path[i+1] == ast.Node(s.Body)
-			b, ok := unparen(s.Cond).(*ast.BinaryExpr)
-			if ok && inBody && b.Op == token.EQL {
-				if la := lenArg(info, b.X); la != nil && sameExpr(info, la, x) {
-					if k, ok := constInt(info, b.Y); ok && k == 2 {
-						return true
-					}
-				}
-			}
-		case *ast.CaseClause:
-			// switch len(x) { case 2: … }
-			if i > 1 {
-				if sw, ok := path[i-2].(*ast.SwitchStmt); ok && sw.Tag != nil {
-					if la := lenArg(info, sw.Tag); la != nil && sameExpr(info, la, x) && len(s.List) == 1 {
-						if k, ok := constInt(info, s.List[0]); ok && k == 2 {
-							return true
-						}
-					}
-				}
-			}
-		}
-	}
-	return false
-}
-
-func c06decodeXY(c *Ctx, info *types.Info, swFn *ast.FuncDecl) {
-	p := c.P.Pkg("encoding/geojson")
-	n := 0
-	for _, fn := range c.P.RepoFuncs() {
-		if c.P.DeclPkg(fn) != p {
-			continue
-		}
-		fd := c.P.Decl(fn)
-		name := c.P.FuncName(fn)
-		// (a) Point composite literals built from indexed floats
-		ast.Inspect(fd.Body, func(nd ast.Node) bool {
-			lit, ok := nd.(*ast.CompositeLit)
-			if !ok || geomTypeName(info.TypeOf(lit)) != "Point" || len(lit.Elts) != 2 {
-				return true
-			}
-			var xe, ye ast.Expr
-			for i, el := range lit.Elts {
-				if kv, ok := el.(*ast.KeyValueExpr); ok {
-					if src(kv.Key) == "X" {
-						xe = kv.Value
-					} else {
-						ye = kv.Value
-					}
-				} else if i == 0 {
-					xe = el
-				} else {
-					ye = el
-				}
-			}
-			xi, ok1 := unparen(xe).(*ast.IndexExpr)
-			yi, ok2 := unparen(ye).(*ast.IndexExpr)
-			if !ok1 || !ok2 {
-				return true
-			}
-			n++
-			cons := name + "#Point-from-position"
-			kx, _ := constInt(info, xi.Index)
-			ky, _ := constInt(info, yi.Index)
-			switch {
-			case !sameExpr(info, xi.X, yi.X) || kx != 0 || ky != 1:
-				c.Bad("C06.R2", cons, lit.Pos(), "a position is read as `%s`: X must be element 0 and Y element 1 of the same array", src(lit))
-			case !guardLen2(info, fd.Body, lit, xi.X):
-				c.Bad("C06.R2", cons, lit.Pos(), "`%s` is not guarded by len(%s) == 2: positions with another arity are accepted or index out of range", src(lit), src(xi.X))
-			default:
-				c.OK("C06.R2", cons, lit.Pos(), "X=e[0], Y=e[1] under len(e)==2")
-			}
-			return true
-		})
-		// (b) field stores pts[i].X = e[0]; pts[i].Y = e[1]
-		var xs, ys *ast.AssignStmt
-		ast.Inspect(fd.Body, func(nd ast.Node) bool {
-			as, ok := nd.(*ast.AssignStmt)
-			if !ok || len(as.Lhs) != 1 || len(as.Rhs) != 1 {
-				return true
-			}
-			sel, ok := unparen(as.Lhs[0]).(*ast.SelectorExpr)
-			if !ok || geomTypeName(info.TypeOf(sel.X)) != "Point" {
-				return true
-			}
-			if _, isIdx := unparen(as.Rhs[0]).(*ast.IndexExpr); !isIdx {
-				return true
-			}
-			if sel.Sel.Name == "X" {
-				xs = as
-			} else if sel.Sel.Name == "Y" {
-				ys = as
-			}
-			return true
-		})
-		if xs != nil || ys != nil {
-			n++
-			cons := name + "#Point-fields-from-position"
-			if xs == nil || ys == nil {
-				c.Bad("C06.R2", cons, fd.Pos(), "only one coordinate of the point is filled from the position")
-				continue
-			}
-			xi := unparen(xs.Rhs[0]).(*ast.IndexExpr)
-			yi := unparen(ys.Rhs[0]).(*ast.IndexExpr)
-			kx, _ := constInt(info, xi.Index)
-			ky, _ := constInt(info, yi.Index)
-			sameDst := sameExpr(info, unparen(xs.Lhs[0]).(*ast.SelectorExpr).X, unparen(ys.Lhs[0]).(*ast.SelectorExpr).X)
-			switch {
-			case !sameExpr(info, xi.X, yi.X) || kx != 0 || ky != 1 || !sameDst:
-				c.Bad("C06.R2", cons, xs.Pos(), "`%s; %s`: X must come from element 0 and Y from element 1 of the same position", src(xs), src(ys))
-			case !guardLen2(info, fd.Body, xs, xi.X) || !guardLen2(info, fd.Body, ys, yi.X):
-				c.Bad("C06.R2", cons, xs.Pos(), "the position's arity is not checked (len(%s) == 2) before its elements are used", src(xi.X))
-			default:
-				c.OK("C06.R2", cons, xs.Pos(), "X=e[0], Y=e[1] under len(e)==2")
-			}
-		}
-		// (c) encoder: []float64{p.X, p.Y}
-		ast.Inspect(fd.Body, func(nd ast.Node) bool {
-			lit, ok := nd.(*ast.CompositeLit)
-			if !ok || sliceDepthOfFloat(info.TypeOf(lit)) != 1 {
-				return true
-			}
-			n++
-			cons := name + "#position"
-			if len(lit.Elts) != 2 {
-				c.Bad("C06.R2", cons, lit.Pos(), "a position has %d elements, want [x, y]", len(lit.Elts))
-				return true
-			}
-			a, b := selParts(info, lit.Elts[0]), selParts(info, lit.Elts[1])
-			if a.obj != nil && a.obj == b.obj && a.field == "X" && b.field == "Y" && geomTypeName(a.obj.Type()) == "Point" {
-				c.OK("C06.R2", cons, lit.Pos(), "[p.X, p.Y]")
-			} else {
-				c.Bad("C06.R2", cons, lit.Pos(), "a position is built as `%s`, RFC 7946 order is [x, y] of one point", src(lit))
-			}
-			return true
-		})
-	}
-	_ = swFn
-	_ = n
 }
 
 func c06tags(c *Ctx) {
@@ -435,142 +75,6 @@ func c06tags(c *Ctx) {
 		c.Bad("C06.R1", "encoding/geojson.Geometry#tags", t.Obj().Pos(), "%s", msg)
 	} else {
 		c.OK("C06.R1", "encoding/geojson.Geometry#tags", t.Obj().Pos(), `json members "type" and "coordinates"`)
-	}
-}
-
-// c06loops: every loop in the package that stores into an indexed local must be
-// a full-range identity map into make(T, len(source)).
-func c06loops(c *Ctx, p *pkgT) {
-	info := p.TypesInfo
-	for _, fn := range c.P.RepoFuncs() {
-		if c.P.DeclPkg(fn) != p {
-			continue
-		}
-		fd := c.P.Decl(fn)
-		sc := newFnScope(info, fd.Body)
-		k := 0
-		ast.Inspect(fd.Body, func(nd ast.Node) bool {
-			var st ast.Stmt
-			switch x := nd.(type) {
-			case *ast.RangeStmt:
-				st = x
-			case *ast.ForStmt:
-				st = x
-			default:
-				return true
-			}
-			l := sc.loopOf(st)
-			// stores into indexed locals directly in this loop's body (not nested loops)
-			var stores []*ast.IndexExpr
-			var body *ast.BlockStmt
-			if rs, ok := st.(*ast.RangeStmt); ok {
-				body = rs.Body
-			} else {
-				body = st.(*ast.ForStmt).Body
-			}
-			var collect func(n ast.Node)
-			collect = func(n ast.Node) {
-				ast.Inspect(n, func(m ast.Node) bool {
-					switch y := m.(type) {
-					case *ast.RangeStmt, *ast.ForStmt:
-						return m == n
-					case *ast.AssignStmt:
-						for _, lh := range y.Lhs {
-							e := unparen(lh)
-							if sel, ok := e.(*ast.SelectorExpr); ok {
-								e = unparen(sel.X)
-							}
-							if ix, ok := e.(*ast.IndexExpr); ok {
-								if _, isSlice := info.TypeOf(ix.X).Underlying().(*types.Slice); isSlice && objOf(info, ix.X) != nil {
-									stores = append(stores, ix)
-								}
-							}
-						}
-					}
-					return true
-				})
-			}
-			collect(body)
-			if len(stores) == 0 {
-				return true
-			}
-			k++
-			cons := fmt.Sprintf("%s#copy-loop", c.P.FuncName(fn))
-			if k > 1 {
-				cons = fmt.Sprintf("%s-%d", cons, k)
-			}
-			if l == nil {
-				c.Unk("C06.R3", cons, st.Pos(), "loop not recognised as a counting loop")
-				return true
-			}
-			msg := ""
-			if !(l.Lo.ok && l.Lo.Of == nil && l.Lo.K == 0 && l.Hi.ok && l.Hi.K == 0 && l.Hi.Of != nil) {
-				msg = "loop " + l.String() + " does not cover the whole source"
-			}
-			brk, cont, _ := earlyExits(body)
-			if len(brk)+len(cont) > 0 {
-				msg = "conversion loop has break/continue: elements may be skipped"
-			}
-			for _, ix := range stores {
-				if off, ok := sc.idxOffset(ix.Index, l.Idx); !ok || off != 0 {
-					msg = "store `" + src(ix) + "` is not at the loop index: order or position of elements is not preserved"
-				}
-				dst := objOf(info, ix.X)
-				okMake := false
-				for _, d := range sc.defs[dst] {
-					if d == nil {
-						continue
-					}
-					if mk, ok := unparen(d).(*ast.CallExpr); ok && builtinName(info, mk) == "make" && len(mk.Args) >= 2 {
-						af := sc.aff(mk.Args[1])
-						if af.ok && af.K == 0 && af.Of != nil && l.Hi.Of != nil && sameExpr(info, af.Of, l.Hi.Of) {
-							okMake = true
-						}
-					}
-				}
-				if !okMake && msg == "" {
-					msg = "destination `" + dst.Name() + "` is not allocated with the source's length"
-				}
-			}
-			// value provenance: RHS derives from the current element
-			ast.Inspect(body, func(m ast.Node) bool {
-				as, ok := m.(*ast.AssignStmt)
-				if !ok {
-					return true
-				}
-				for i, lh := range as.Lhs {
-					e := unparen(lh)
-					if sel, ok := e.(*ast.SelectorExpr); ok {
-						e = unparen(sel.X)
-					}
-					ix, ok := e.(*ast.IndexExpr)
-					if !ok || objOf(info, ix.X) == nil {
-						continue
-					}
-					if _, isSlice := info.TypeOf(ix.X).Underlying().(*types.Slice); !isSlice {
-						continue
-					}
-					rhs := as.Rhs[0]
-					if len(as.Rhs) == len(as.Lhs) {
-						rhs = as.Rhs[i]
-					}
-					var srcColl types.Object
-					if l.Hi.Of != nil {
-						srcColl = objOf(info, l.Hi.Of)
-					}
-					if !derivesFrom(info, sc, rhs, srcColl, l, 0) && msg == "" {
-						msg = "value stored by `" + src(as) + "` does not come from the element at the same index"
-					}
-				}
-				return true
-			})
-			if msg != "" {
-				c.Bad("C06.R3", cons, st.Pos(), "%s", msg)
-			} else {
-				c.OK("C06.R3", cons, st.Pos(), "dst[i] = f(src[i]) over [0, len(src))")
-			}
-			return true
-		})
 	}
 }
 
